@@ -1,0 +1,27 @@
+// Add-only test shim (build tag verif): read-only views of the parts of a Writer / Reader
+// that Reset recycles or clears.
+
+//go:build verif
+// +build verif
+
+package xflate
+
+// VerifIndexState returns len(idx.Records), idx.BackSize and whether the compressor exists.
+func (xw *Writer) VerifIndexState() (nrecs int, backSize int64, hasZW bool) {
+	return len(xw.idx.Records), xw.idx.BackSize, xw.zw != nil
+}
+
+// VerifResetState returns the offsets of the decompressor object (which survives Reset),
+// len(idx.Records), and whether the decompressor exists.
+func (xr *Reader) VerifResetState() (zrIn, zrOut int64, nrecs int, hasZR bool) {
+	if xr.zr == nil {
+		return 0, 0, len(xr.idx.Records), false
+	}
+	return xr.zr.InputOffset, xr.zr.OutputOffset, len(xr.idx.Records), true
+}
+
+// VerifCursor returns the fields Reset clears: record number, raw offset, pending discard and
+// the current chunk (compressed size, raw size, type).
+func (xr *Reader) VerifCursor() (ri int, offset, discard, csize, rsize int64, typ int) {
+	return xr.ri, xr.offset, xr.discard, xr.chk.csize, xr.chk.rsize, xr.chk.typ
+}
